@@ -1233,6 +1233,130 @@ Proof.
   destruct P as [_ P]. auto.
 Qed.
 
+(* ---------------------------------------------------------------- the pass order as a function *)
+Lemma eqk_true : forall a b, eqk K leb a b = true <-> leb a b = true /\ leb b a = true.
+Proof. intros. unfold eqk. apply andb_true_iff. Qed.
+
+Lemma filter_or_perm : forall (A : Type) (f g : A -> bool) l,
+  (forall x, In x l -> f x = true -> g x = true -> False) ->
+  Permutation (filter (fun x => f x || g x) l) (filter f l ++ filter g l).
+Proof.
+  induction l as [|x l IH]; intro D; simpl; auto.
+  assert (IH' := IH (fun y I => D y (or_intror I))).
+  destruct (f x) eqn:F; destruct (g x) eqn:G; simpl; auto.
+  - exfalso. eapply D; eauto. left; auto.
+  - apply Permutation_cons_app. auto.
+Qed.
+
+Lemma filter_all : forall (A : Type) (f : A -> bool) l, (forall x, In x l -> f x = true) -> filter f l = l.
+Proof.
+  induction l as [|x l IH]; intro H; simpl; auto.
+  rewrite (H x) by (left; auto). f_equal. apply IH. intros; apply H; right; auto.
+Qed.
+
+(* ks strictly ascending *)
+Definition asc (ks : list K) : Prop := StronglySorted (fun a b => leb b a = false) ks.
+(* every entry's priority is (equivalent to) one of ks *)
+Definition covers (ks : list K) (l : list item) : Prop :=
+  forall x, In x l -> existsb (eqk K leb (ikey x)) ks = true.
+
+Lemma bucket_perm_filter : forall ks l, asc ks ->
+  Permutation (bucket leb ks l) (filter (fun x => existsb (eqk K leb (ikey x)) ks) l).
+Proof.
+  induction 1 as [|k ks S IH F]; unfold bucket in *; simpl.
+  - induction l; simpl; auto.
+  - rewrite IH. symmetry. apply filter_or_perm.
+    intros x _ E1 E2. apply existsb_exists in E2. destruct E2 as (k'&I&E2).
+    rewrite Forall_forall in F. specialize (F _ I).
+    apply eqk_true in E1. apply eqk_true in E2. destruct E1 as [E1 _]. destruct E2 as [_ E2].
+    rewrite (leb_trans _ _ _ E2 E1) in F. discriminate.
+Qed.
+
+Lemma bucket_perm : forall ks l, asc ks -> covers ks l -> Permutation (bucket leb ks l) l.
+Proof. intros ks l A C. rewrite bucket_perm_filter by auto. rewrite filter_all; auto. Qed.
+
+Lemma SS_app : forall (A : Type) (R : A -> A -> Prop) l1 l2, StronglySorted R l1 -> StronglySorted R l2 ->
+  (forall a b, In a l1 -> In b l2 -> R a b) -> StronglySorted R (l1 ++ l2).
+Proof.
+  induction 1 as [|a l1 S IH F]; intros S2 C; simpl; auto.
+  constructor.
+  - apply IH; auto. intros; apply C; auto. right; auto.
+  - apply Forall_app. split; auto. apply Forall_forall. intros b I. apply C; auto. left; auto.
+Qed.
+
+Lemma SS_filter_impl : forall (A : Type) (R R' : A -> A -> Prop) (f : A -> bool) l, StronglySorted R l ->
+  (forall a b, f a = true -> f b = true -> R a b -> R' a b) -> StronglySorted R' (filter f l).
+Proof.
+  induction 1 as [|a l S IH F]; intro H; simpl; [constructor|].
+  destruct (f a) eqn:Fa; auto. constructor; auto.
+  apply Forall_forall. intros b I. apply filter_In in I. destruct I as [I Fb].
+  rewrite Forall_forall in F. apply H; auto.
+Qed.
+
+Definition idlt (a b : item) : Prop := ictr a < ictr b.
+
+Lemma bucket_sorted : forall ks l, asc ks -> StronglySorted idlt l -> StronglySorted prec (bucket leb ks l).
+Proof.
+  induction 1 as [|k ks S IH F]; intro Sl; unfold bucket in *; simpl; [constructor|].
+  apply SS_app; auto.
+  - eapply SS_filter_impl; [exact Sl|]. intros a b Ea Eb L. right.
+    apply eqk_true in Ea. apply eqk_true in Eb. destruct Ea as [Ea1 Ea2]. destruct Eb as [Eb1 Eb2].
+    repeat split; [eapply leb_trans; eauto|eapply leb_trans; eauto|exact L].
+  - intros a b Ia Ib. apply filter_In in Ia. destruct Ia as [_ Ea].
+    apply in_flat_map in Ib. destruct Ib as (k'&Ik&Ib). apply filter_In in Ib. destruct Ib as [_ Eb].
+    rewrite Forall_forall in F. specialize (F _ Ik).
+    apply eqk_true in Ea. apply eqk_true in Eb. destruct Ea as [Ea _]. destruct Eb as [_ Eb].
+    left. destruct (leb (ikey b) (ikey a)) eqn:E; auto.
+    rewrite (leb_trans _ _ _ (leb_trans _ _ _ Eb E) Ea) in F. discriminate.
+Qed.
+
+Lemma sorted_perm_unique : forall (A : Type) (R : A -> A -> Prop),
+  (forall a, ~ R a a) -> (forall a b c, R a b -> R b c -> R a c) ->
+  forall l1 l2, StronglySorted R l1 -> StronglySorted R l2 -> Permutation l1 l2 -> l1 = l2.
+Proof.
+  intros A R Irr Tr. induction l1 as [|a l1 IH]; intros l2 S1 S2 P.
+  - apply Permutation_nil in P. auto.
+  - destruct l2 as [|b l2]; [apply Permutation_sym, Permutation_nil in P; discriminate|].
+    inversion S1 as [|? ? S1' F1]; inversion S2 as [|? ? S2' F2]; subst.
+    rewrite Forall_forall in F1, F2.
+    assert (Ia : In a (b :: l2)) by (eapply Permutation_in; [exact P|left; auto]).
+    assert (Ib : In b (a :: l1)) by (eapply Permutation_in; [symmetry; exact P|left; auto]).
+    destruct Ib as [E|Ib].
+    + subst b. f_equal. apply IH; auto. eapply Permutation_cons_inv; eauto.
+    + destruct Ia as [E|Ia]; [subst b; f_equal; apply IH; auto; eapply Permutation_cons_inv; eauto|].
+      exfalso. apply (Irr a). eapply Tr; [apply F1; exact Ib|apply F2; exact Ia].
+Qed.
+
+(* the queue holds its entries in fire order *)
+Lemma queued_incr : forall m t m', mrun m t m' -> mwf m -> StronglySorted idlt (queued m) ->
+  StronglySorted idlt (queued m').
+Proof.
+  induction 1 as [|m e m1 t m2 St Rn IH]; auto. intros W S. apply IH; [eapply mwf_step; eauto|].
+  inversion St; subst; simpl; auto; [|constructor].
+  apply SS_app; auto; [repeat constructor|].
+  intros a b Ia [<-|[]]. destruct W as [_ F]. unfold ids in F. rewrite map_app in F. apply Forall_app in F.
+  destruct F as [F _]. rewrite Forall_forall in F. unfold idlt.
+  match goal with Hx : ictr x = next m |- _ => rewrite Hx end. apply F. apply in_map. auto.
+Qed.
+
+(* a completed pass dispatched exactly [bucket ks] of what was queued when it began *)
+Theorem pass_exact : forall prog s t1 t2 ks, reach prog s ->
+  trace s = t1 ++ TSnap :: t2 -> nosnap t2 -> batch s = 0 ->
+  asc ks -> covers ks (pending_fires t1) ->
+  disps t2 = bucket leb ks (pending_fires t1).
+Proof.
+  intros prog s t1 t2 ks R Ht N B A C.
+  destruct (pass_sorted _ _ _ _ R Ht N) as (rest&L&P&S).
+  rewrite B in L. destruct rest; [|discriminate]. rewrite app_nil_r in *.
+  assert (I : StronglySorted idlt (pending_fires t1)).
+  { destruct (qinv_reach _ _ R) as [_ Rn _ _ _]. rewrite Ht in Rn.
+    destruct (split_at_snap _ _ _ Rn) as (ma&mb&Ha&_&Hq&_). rewrite <- Hq.
+    apply (queued_incr _ _ _ Ha mwf_m0). constructor. }
+  apply (sorted_perm_unique _ prec prec_irrefl prec_trans); auto.
+  - apply bucket_sorted; auto.
+  - rewrite <- P. symmetry. apply bucket_perm; auto.
+Qed.
+
 (* fire() only appends to the FIFO: no handler runs, no frame is pushed, heap and batch are untouched *)
 Lemma fire_only_queues : forall (s : state) ctx n p md cs acts k,
   stack s = FBody ctx (AFire n p md cs :: acts) :: k ->
